@@ -29,6 +29,9 @@ import (
 type Call struct {
 	Desc M
 	Fn   func() M
+	// Gate, if set, makes this a pure wait: the thread may start the call only once Gate(done) holds,
+	// where done[t] is the number of calls thread t has completed.
+	Gate func(done map[int]int) bool
 }
 
 type rep struct {
@@ -39,6 +42,7 @@ type rep struct {
 	mu    *sync.Mutex
 	rw    *sync.RWMutex
 	write bool
+	gate  func(done map[int]int) bool
 }
 
 type thr struct {
@@ -63,10 +67,11 @@ type Sched struct {
 	StepTO  time.Duration
 	FreeTO  time.Duration
 	free    atomic.Bool // relay mode: hooks no longer park
+	done    map[int]int // calls completed per thread (for gates)
 }
 
 func NewSched() *Sched {
-	return &Sched{reports: make(chan rep), owners: map[*sync.Mutex]int{}, rws: map[*sync.RWMutex]*rwState{},
+	return &Sched{reports: make(chan rep), owners: map[*sync.Mutex]int{}, rws: map[*sync.RWMutex]*rwState{}, done: map[int]int{},
 		StepTO: 3 * time.Second, FreeTO: 10 * time.Second}
 }
 
@@ -143,17 +148,29 @@ func (s *Sched) enabled(t *thr) bool {
 		return false
 	}
 	switch t.last.kind {
+	case "START":
+		return t.last.gate == nil || t.last.gate(s.done)
 	case "L":
-		return s.owners[t.last.mu] == 0
-	case "RW":
-		st := s.rws[t.last.rw]
-		if st == nil {
+		// Ask the mutex itself: every other program thread is parked, so a successful TryLock means "free"
+		// (this also sees acquisitions made through TryLock, which have no hook of their own).
+		if t.last.mu.TryLock() {
+			t.last.mu.Unlock()
 			return true
 		}
+		return false
+	case "RW":
 		if t.last.write {
-			return st.writer == 0 && st.readers == 0
+			if t.last.rw.TryLock() {
+				t.last.rw.Unlock()
+				return true
+			}
+			return false
 		}
-		return st.writer == 0
+		if t.last.rw.TryRLock() {
+			t.last.rw.RUnlock()
+			return true
+		}
+		return false
 	}
 	return true
 }
@@ -187,7 +204,7 @@ func (s *Sched) RunThreads(ids []int, progs [][]Call, choose Chooser, emit func(
 			defer wg.Done()
 			<-t.resume
 			for _, c := range prog {
-				s.parkT(t, rep{kind: "START", data: c.Desc})
+				s.parkT(t, rep{kind: "START", data: c.Desc, gate: c.Gate})
 				res := c.Fn()
 				s.parkT(t, rep{kind: "RET", data: res})
 			}
@@ -208,8 +225,18 @@ func (s *Sched) RunThreads(ids []int, progs [][]Call, choose Chooser, emit func(
 		info.Free = true
 		s.free.Store(true)
 		emit(M{"ev": "freemode"})
+		var gated0 []rep
 		for _, t := range ths {
 			if !t.done && t != running {
+				if t.last.kind == "START" {
+					if t.last.gate != nil && !t.last.gate(s.done) {
+						gated0 = append(gated0, t.last)
+						continue
+					}
+					// its invocation has not been logged yet
+					t.cur = t.last.data
+					emit(merge(M{"ev": "inv", "t": t.id, "site": "", "to": ""}, t.last.data))
+				}
 				select {
 				case t.resume <- struct{}{}:
 				default:
@@ -223,15 +250,36 @@ func (s *Sched) RunThreads(ids []int, progs [][]Call, choose Chooser, emit func(
 				live++
 			}
 		}
+		gated := gated0
+		release := func() {
+			rest := gated[:0]
+			for _, g := range gated {
+				if g.gate(s.done) {
+					emit(merge(M{"ev": "inv", "t": g.t.id, "site": "", "to": ""}, g.data))
+					go func(t *thr) { t.resume <- struct{}{} }(g.t)
+				} else {
+					rest = append(rest, g)
+				}
+			}
+			gated = rest
+		}
 		for live > 0 {
 			select {
 			case r := <-s.reports:
 				switch r.kind {
 				case "START":
 					r.t.cur = r.data
+					if r.gate != nil && !r.gate(s.done) {
+						gated = append(gated, r)
+						continue
+					}
 					emit(merge(M{"ev": "inv", "t": r.t.id, "site": "", "to": ""}, r.data))
 				case "RET":
+					s.done[r.t.id]++
 					emit(merge(M{"ev": "ret", "t": r.t.id}, r.data))
+					go func(t *thr) { t.resume <- struct{}{} }(r.t)
+					release()
+					continue
 				case "EXIT":
 					r.t.done = true
 					live--
@@ -299,6 +347,7 @@ func (s *Sched) RunThreads(ids []int, progs [][]Call, choose Chooser, emit func(
 		t.resume <- struct{}{}
 		r, ok := recv()
 		if !ok {
+			emit(M{"ev": "stuck", "t": t.id, "site": from.site})
 			free(t)
 			break
 		}
@@ -327,6 +376,9 @@ func (s *Sched) RunThreads(ids []int, progs [][]Call, choose Chooser, emit func(
 			emit(ev)
 		}
 		t.last = r
+		if r.kind == "RET" {
+			s.done[t.id]++
+		}
 		if r.kind == "EXIT" {
 			t.done = true
 		}
